@@ -2,6 +2,7 @@ use crate::report::Report;
 use crate::Ctx;
 
 pub mod c01;
+pub mod c02;
 pub mod c04;
 pub mod c05;
 pub mod c12;
@@ -20,6 +21,7 @@ pub mod c20;
 pub fn run(prop: &str, ctx: &mut Ctx) -> Option<Report> {
     match prop {
         "C01" => Some(c01::run(ctx)),
+        "C02" => Some(c02::run(ctx)),
         "C04" => Some(c04::run(ctx)),
         "C05" => Some(c05::run(ctx)),
         "C12" => Some(c12::run(ctx)),
